@@ -29,10 +29,23 @@ static void stub_fan_input(struct upipe *upipe, struct uref *uref, struct upump 
 }
 static int stub_fan_control(struct upipe *upipe, int command, va_list args) { return UBASE_ERR_NONE; }
 static struct upipe_dup g_dup; static struct upipe_dup_output g_sub[3];
+#ifndef LAZY
+#define LAZY (-1)
+#endif
+/* -DLAZY=k: output subpipe k has no sink yet; the application connects it when the subpipe asks (need_output event),
+ * as uprobe_selflow / uprobe_*_output style probes do: that output must still get its copy */
+static int stub_probe_lazy(struct uprobe *uprobe, struct upipe *upipe, int event, va_list args)
+{
+    if (event == UPROBE_NEED_OUTPUT && LAZY >= 0 && upipe == &g_sub[LAZY >= 0 ? LAZY : 0].upipe && g_sub[LAZY >= 0 ? LAZY : 0].output == NULL) {
+        upipe_dup_output_set_output(upipe, &g_out[LAZY >= 0 ? LAZY : 0]);
+        return UBASE_ERR_NONE;
+    }
+    return stub_probe_throw(uprobe, upipe, event, args);
+}
 
 void h_dup_input(void)
 {
-    vs_reset_all();
+    vs_reset_all(); gs_probe.uprobe_throw = stub_probe_lazy;
     VPIPE_INIT_MGR(g_omgr, 0x66616e30, NULL, stub_fan_input, stub_fan_control);
     struct upipe *upipe = &g_dup.upipe;
     upipe_dup_mgr.signature = UPIPE_DUP_SIGNATURE; upipe_dup_mgr.upipe_input = upipe_dup_input;
@@ -53,6 +66,7 @@ void h_dup_input(void)
         s->urefcount.refcount = 1; s->urefcount.cb = stub_rc_cb;
         s->output = &g_out[k]; s->flow_def = vs_make_uref(true, 9, 0); VASSUME(s->flow_def != NULL);
         s->output_state = UPIPE_HELPER_OUTPUT_VALID; ulist_init(&s->request_list);
+        if (k == LAZY) { s->output = NULL; s->output_state = UPIPE_HELPER_OUTPUT_NONE; }
         uchain_init(&s->uchain); ulist_add(&g_dup.outputs, &s->uchain);
     }
     VIN(uint64_t, marker); VIN(uint8_t, in_dict);
